@@ -10,7 +10,8 @@ RULE = ("forests of real Element objects (depth <= 4, repeated sibling names, mi
         "nodes/detachChildren/prune/set/unset/setText/rename/setPrefix/clone) with lookups interleaved; every history "
         "of length <= 2 over a fixed 7-node tree exhaustively (3 thorough), random histories up to length 25; "
         "non-trivial = the history contains a structural edit on a node that has a same-named sibling; distinct = "
-        "distinct (tree, history)")
+        "distinct (tree, history)"
+        ' ; plus: childrenAtPath, qualified and unqualified attributes sharing a local name, element equality across prefixes, the schema doctor on schemas whose import is not the first child')
 ASSUMPTIONS = ["node identity is tracked by a harness-side map from Python objects to integers",
                "append/insert are exercised with detached nodes only (attaching an attached node aliases it in two "
                "child lists: outside the edit alphabet of the property)"]
